@@ -88,4 +88,10 @@ example : shorten (2 ^ 64 - 2 ^ 60) = (15, [69, 105, 66]) := by decide
 example : Size.format [] 10000000 1 = [49,48,32,48,48,48,32,48,48,48,32,66] := by decide      -- "10 000 000 B"
 example : Size.format [] 1234 3 = [49,38,110,98,115,112,59,50,51,52,38,110,98,115,112,59,66] := by decide
 
+theorem string_paths (s : Nat) :
+    Size.toString s = Size.format [] s 0 ∧ prettyString s = Size.format [] s 1 ∧ prettyHTML s = Size.format [] s 3 ∧
+    bytesString s = dec s ∧ hasFlag 1 Gen.size_FormatPretty = true ∧ hasFlag 3 Gen.size_FormatPretty = true ∧
+    hasFlag 3 Gen.size_FormatHTML = true ∧ hasFlag 1 Gen.size_FormatHTML = false ∧ hasFlag 0 Gen.size_FormatPretty = false := by
+  refine ⟨rfl, rfl, rfl, rfl, ?_, ?_, ?_, ?_, ?_⟩ <;> decide
+
 end U.Props.C13
